@@ -128,6 +128,20 @@ where go : Nat → Bytes → List Bytes
     if l1.isEmpty then [] else
     l1.takeWhile (fun c => !B.isWs c) :: go fuel (l1.dropWhile (fun c => !B.isWs c))
 
+/-- the regular expressions of `sievelib/managesieve.py` this model (the reader, the reply decoder, the listing
+    decoder) implements by hand, in source order: where each is used and the pattern with its replacement / flags.
+    Compared on every run with what the module says now (`Generated.clientPatterns`). -/
+def patterns : List (String × String) :=
+  [("compile __respcode_expr", "(OK|NO|BYE)\\s*(.+)?"),
+   ("compile __error_code_expr", "\\(([^\\s()\"]+)(?:\\s+\"(?:[^\"\\\\]|\\\\.)*\")?\\)\\s*"),
+   ("compile __error_expr", "\"((?:[^\"\\\\]|\\\\.)*)\""),
+   ("compile __size_expr", "\\{(\\d+)\\+?\\}"),
+   ("compile __trailing_size_expr", "\\{(\\d+)\\+?\\}$"),
+   ("compile __active_expr", "ACTIVE  flags re.IGNORECASE"),
+   ("sub errmsg", "\\\\(.)  → \\1"),
+   ("match listscripts", "\"((?:[^\"\\\\]|\\\\.)*)\"\\s*(.*)"),
+   ("sub listscripts", "\\\\(.)  → \\1")]
+
 def knownCaps : List Bytes :=
   [sb "IMPLEMENTATION", sb "SASL", sb "SIEVE", sb "STARTTLS", sb "NOTIFY", sb "LANGUAGE", sb "VERSION"]
 
